@@ -6,6 +6,21 @@ VERIF = os.path.dirname(os.path.abspath(__file__))
 
 # property id -> (level category, technique, level text, level note, design ref)
 CLAIMED = {
+    "C02": ("exploration",
+            "plaintext/counter ledger monitors over adversarial schedules (sessions driven directly; channels with millisecond timers) + encryption-site hook events",
+            "Honest, unrelated and attacker-paired sessions feed one pool on which a seeded adversary replays, mutates, splices, cross-feeds and reorders; every plaintext handed to the application is looked up in the per-pair ledger and keyed by counter (at most once), every ciphertext counter is recorded at the encryption site via a hook and checked for reuse, and emitted bytes are scanned for plaintexts.",
+            "Cryptographic soundness of Noise/ChaCha20-Poly1305 is trusted; the adversary is the concrete action catalogue.",
+            "DESIGN.md §4 C02"),
+    "C03": ("exploration",
+            "usability oracle sampled after every message against a raw Noise/P2PKE attacker with its own key",
+            "A raw flynn/noise peer forges InitHello/RespHello/InitDone fields (missing, garbage, own, lifted, cross-purpose signatures; replayed bodies; MITM lifts; early data) in both roles and at every point of an honest handshake; after each delivered message IsReady/Send/isApp are sampled and, if usable, RemoteKey must be the key of the principal that holds the other end.",
+            "Ed25519/Noise soundness trusted; attack catalogue composed randomly, not all adversary programs.",
+            "DESIGN.md §4 C03"),
+    "C06": ("fault_enumeration",
+            "schedule enumeration by re-execution (deliver/drop/dup/reorder/reflect/retransmit/send) with invariant monitors after every action and a fair-suffix completion check",
+            "All schedules to a depth bound (memoised on observable state) and random schedules up to length 40 over the genuine messages of an honest pair; monitors: no panic, rank/readiness monotone, Handshake() idempotent and equal to the last reply; then <=6 fair rounds must complete with crossed keys and deliver the first and second Send of each side.",
+            "Sessions re-created per schedule; rank read from observables only.",
+            "DESIGN.md §4 C06"),
     "C20": ("exploration",
             "ask-ledger monitor over simulated networks with honest (real DHTNode), failing and adversarial responders",
             "Runs the real DHTFindNode/Join/Get/Put against simulated networks whose Ask function is the harness; every ask is logged, so per-node contact counts, the termination bound and every result field are recomputed from the ledger and compared.",
